@@ -9,6 +9,7 @@ import importlib
 import json
 import os
 import shutil
+import signal
 import subprocess
 import sys
 import time
@@ -23,7 +24,11 @@ sys.path.insert(2, os.path.join(HERE, 'fixtures'))
 sys.dont_write_bytecode = True
 
 from vlib.core import (PropertyViolation, HarnessError, Stats, merge_stats, fingerprint, jsonable,  # noqa: E402
-                       canonical)
+                       canonical, with_budget, StepBudgetExceeded)
+
+
+class CaseTimeout(BaseException):
+    """Raised by the hang guard's alarm (BaseException so that no `except Exception` of a harness eats it)."""
 from vlib import findings  # noqa: E402
 
 NSHARDS = int(os.environ.get('VERIF_SHARDS', '16'))
@@ -59,13 +64,44 @@ class Judge:
         self.failing = []       # cases that produced an unlisted violation (the last is the shrunk one)
         self.deadline = None
         self.budget_hit = False
+        self.budget_mode = False
+
+    # Hang guard.  A wall-clock alarm never decides anything: when a case runs for more than CASE_WALL seconds
+    # it is interrupted and re-executed under the deterministic line budget of vlib.core (HANG_LINES executed
+    # lines inside desper).  Only exceeding that budget is a verdict ("does not terminate"); from then on every
+    # case of this process runs under the budget so that shrinking does not wait for the alarm again.
+    CASE_WALL = 20.0
+    HANG_LINES = 3000000
+
+    def _guarded(self, case):
+        if self.budget_mode:
+            try:
+                info, _n = with_budget(self.HANG_LINES, self.mod.run_case, case)
+                return info
+            except StepBudgetExceeded as exc:
+                raise PropertyViolation('does_not_terminate', {'budget': str(exc)})
+
+        def on_alarm(signum, frame):
+            raise CaseTimeout()
+        old = signal.signal(signal.SIGALRM, on_alarm)
+        signal.setitimer(signal.ITIMER_REAL, self.CASE_WALL)
+        try:
+            return self.mod.run_case(case)
+        except CaseTimeout:
+            signal.setitimer(signal.ITIMER_REAL, 0)
+            self.budget_mode = True
+            self.stats.extra['hang_guard_triggered'] = 1
+            return self._guarded(case)
+        finally:
+            signal.setitimer(signal.ITIMER_REAL, 0)
+            signal.signal(signal.SIGALRM, old)
 
     def __call__(self, case, sample=True):
         if self.deadline is not None and time.monotonic() > self.deadline:
             self.budget_hit = True
             return
         try:
-            info = self.mod.run_case(case)
+            info = self._guarded(case)
         except PropertyViolation as v:
             key = self.matcher.match(case, v)
             if key is None:
@@ -80,7 +116,7 @@ class Judge:
     def once(self, case):
         """Direct execution without booking; returns the violation or None (known findings -> None)."""
         try:
-            self.mod.run_case(case)
+            self._guarded(case)
         except PropertyViolation as v:
             if self.matcher.match(case, v) is None:
                 return v
